@@ -46,12 +46,19 @@ for n in NAMES:
     for m in NAMES:
         OPS.append(("update", n, m, 2))
     OPS += [("replace", n, "-", 1), ("replace", n, NAMES[(NAMES.index(n) + 1) % 3], 2)]
+    # a content that is not an `if` command (a bare action taken from a parsed script): a filter's content is whatever command it was given
+    OPS += [("replace", n, "-", 9)]
     # the content of ANOTHER filter of the same set installed as this one's (`replacefilter(n, fs.getfilter(m))`, the call the
     # documentation shows): afterwards the two filters have equal content, and remain two filters
     OPS += [("replacefrom", n, m) for m in NAMES if m != n]
 
 
 def fresh_content(i):
+    if i == 9:
+        from sievelib.parser import Parser
+        p = Parser()
+        assert p.parse(b'require "fileinto"; fileinto "F9";')
+        return p.result[1]
     tmp = FiltersSet("tmp")
     tmp.addfilter("x", *definition(i))
     return tmp.getfilter("x")
